@@ -29,8 +29,10 @@ STRINGS = ['"x"', '"if"', '"+"', '"|"', '"("', '")"', '"["', '"]"', '":="', '"\\
 	# raw control characters inside longer terminals (the reader restores a backslash escape only when it is the whole terminal)
 	'"a\tb"', '"\t\t"', '"=>\t"', '"\x0c "', '"\\n"', '"a\\tb"', '"#"',
 	# string terminals whose body is also the body of a regexp terminal below (same text, different comparison kind)
-	'"x+"', '"."', '"[1*]"', '"\\d+"']
-REGEXPS = ['/x+/', '/./', '/[a-z]+/', '/\\d+/', '/[a-zA-Z_]\\w*/', '/"[^"]+"/', '/[\\/].+[\\/]/', '/[*+?]/', '/x{1,3}/', '/[1*]/']
+	'"x+"', '"."', '"[1*]"', '"\\d+"',
+	# terminals whose body ends with an escaped backslash (the closing delimiter follows an even run of backslashes)
+	'"\\\\"', '"a\\\\"']
+REGEXPS = ['/\\\\/', '/[a-z]\\\\/', '/x+/', '/./', '/[a-z]+/', '/\\d+/', '/[a-zA-Z_]\\w*/', '/"[^"]+"/', '/[\\/].+[\\/]/', '/[*+?]/', '/x{1,3}/', '/[1*]/']
 META = set('|()[]*+?/\\"')
 
 
